@@ -749,6 +749,48 @@ class CallMixin:
                 return const(self.tree.is_subclass(ci, args[1].args[0]))
         return None
 
+    def _op_cmp(self, op, args, kw, fr):
+        return self.mk_cmp(op, args[0], args[1], fr) if len(args) == 2 and not kw else None
+
+    def x_operator_eq(self, args, kw, fr, node):
+        return self._op_cmp("==", args, kw, fr)
+
+    def x_operator_ne(self, args, kw, fr, node):
+        return self._op_cmp("!=", args, kw, fr)
+
+    def x_operator_lt(self, args, kw, fr, node):
+        return self._op_cmp("<", args, kw, fr)
+
+    def x_operator_le(self, args, kw, fr, node):
+        return self._op_cmp("<=", args, kw, fr)
+
+    def x_operator_gt(self, args, kw, fr, node):
+        return self._op_cmp(">", args, kw, fr)
+
+    def x_operator_ge(self, args, kw, fr, node):
+        return self._op_cmp(">=", args, kw, fr)
+
+    def x_operator_and_(self, args, kw, fr, node):
+        return self.mk_bin("&", args[0], args[1], fr) if len(args) == 2 and not kw else None
+
+    def x_operator_or_(self, args, kw, fr, node):
+        return self.mk_bin("|", args[0], args[1], fr) if len(args) == 2 and not kw else None
+
+    def x_operator_add(self, args, kw, fr, node):
+        return self.mk_bin("+", args[0], args[1], fr) if len(args) == 2 and not kw else None
+
+    def x_operator_sub(self, args, kw, fr, node):
+        return self.mk_bin("-", args[0], args[1], fr) if len(args) == 2 and not kw else None
+
+    def x_operator_invert(self, args, kw, fr, node):
+        return self.mk_un("~", args[0]) if len(args) == 1 and not kw else None
+
+    def x_operator_not_(self, args, kw, fr, node):
+        return self.mk_un("not", args[0]) if len(args) == 1 and not kw else None
+
+    def x_builtins_staticmethod(self, args, kw, fr, node):
+        return args[0] if len(args) == 1 and not kw else None     # staticmethod(f) called through the class is f
+
     def x_operator_getitem(self, args, kw, fr, node):
         if len(args) == 2 and not kw:
             return self.mk_index(args[0], args[1])
